@@ -446,7 +446,62 @@ def timer_hint(ob, tier):
     return dict(res, verdict="holds")
 
 
+def tcp_backend_handle(ob, tier):
+    """TcpSession::connect_to_backend: BackendMap::backend_from_cluster_id counted the new
+    connection on the backend it returned (Backend::try_connect -> inc_connections); the session
+    has to keep that handle in `self.backend`, because TcpSession::remove_backend (the only place
+    that calls dec_connections) and fail_backend_connection (the only place that records a
+    failure) act on `self.backend` alone.  Decided: every path that returns Ok after the backend
+    was obtained stores Some(handle) into self.backend."""
+    src = open(mirrun.REPO + "/lib/src/tcp.rs").read()
+    m = re.search(r"pub struct TcpSession \{(.*?)\n\}", src, re.S)
+    names = re.findall(r"^\s*(?:pub(?:\([\w:]+\))? )?(\w+):", re.sub(r"//.*", "", m.group(1)), re.M)
+    place = "(*_1).%d" % names.index("backend")
+    fn = mirrun.get_fn("lib", "::connect_to_backend", sig="_1: &mut TcpSession")
+    ex = engine.Executor(fn, loop_bound=lambda f, h: 2, max_nodes=200000)
+    ev = ex.run()
+    for i, e in enumerate(ev):
+        e.seq = i
+    q = Q(ex.ctx)
+    res = {"paths": ex.stats["nodes"], "functions": [fn.name]}
+    got = [e for e in ev if e.kind == "call" and e.callee.endswith("::backend_from_cluster_id")]
+    rets = [e for e in ev if e.kind == "return"]
+    if len(got) != 1 or len(rets) != 1:
+        return dict(res, verdict="inconclusive", why="shape: backend_from_cluster_id calls=%d" % len(got))
+    d0 = rets[0].env.get("discr(_0)")
+    if d0 is None:
+        return dict(res, verdict="inconclusive", why="shape: result discriminant unknown")
+    ok = engine.AND(rets[0].guard, got[0].guard, "(= %s %s)" % (d0.term, engine.bv(0, 64)))
+    stores = [e for e in ev if e.kind == "write" and e.place == place and e.seq > got[0].seq]
+    stmts = [st for b in fn.blocks.values() for st in b["stmts"]]
+
+    def is_some(w):
+        t = getattr(w, "text", "") or ""
+        if re.search(r"::Some\(", t) or getattr(w, "payload", None) is not None:
+            return True
+        m2 = re.match(r"^(?:move|copy) (_\d+)$", t)
+        return bool(m2) and any(re.match(r"^%s = .*::Some\(" % re.escape(m2.group(1)), st) for st in stmts)
+    somes = [w for w in stores if is_some(w)]
+    problems = []
+    if q([ok] + [engine.NOT(w.guard) for w in somes])[0] != "unsat":
+        problems.append("connect_to_backend can return Ok without storing the backend handle into self.backend: the connection counted by try_connect is never given back (remove_backend finds None), nor is a connection failure ever recorded on the backend")
+    rp = None
+    if problems:
+        import os
+        r = mirrun.native_test("c16_tcp_backend_count", "")
+        rp = {"reproduced": r["ran"] and r["failed"], "path": os.path.join(mirrun.VERIF, "replay/tests/c16_tcp_backend_count.rs"), "log": r["log"]}
+    wit = [q([ok])[0]]
+    res["witness"] = "Ok return after a backend was obtained is reachable: %s; %d stores into self.backend" % (wit, len(stores))
+    res["witness_ok"] = all(w == "sat" for w in wit)
+    res["queries"], res["solver_s"] = q.n, round(q.secs, 2)
+    if problems:
+        return dict(res, verdict="counterexample", text="; ".join(problems), model={"problems": problems}, replay=rp)
+    return dict(res, verdict="holds")
+
+
 def run(ob, tier):
+    if ob["which"] == "tcp_backend_handle":
+        return tcp_backend_handle(ob, tier)
     if ob["which"] == "timer_hint":
         return timer_hint(ob, tier)
     return {"check_limits": check_limits, "incr_decr": incr_decr, "per_ip_track": per_ip_track, "per_ip_limit": per_ip_limit,
